@@ -1344,10 +1344,14 @@ def remove_duplicate_functions(source: str, preserve: Collection[str]) -> str:
             delete = {node for node in delete if node.name != name}
             del renamings[name]
 
+    # What is inside a function that is deleted is not renamed: the function is found again, after
+    # the renaming, by where it was before
+    deleted_nodes = {child for node in delete for child in ast.walk(node)}
     node_renamings = collections.defaultdict(set)
     for name, substitute in renamings.items():
         for node in names[name]:
-            node_renamings[node].add(substitute)
+            if node not in deleted_nodes:
+                node_renamings[node].add(substitute)
 
     if node_renamings:
         source = _fix_variable_names(source, node_renamings, preserve)
